@@ -37,7 +37,7 @@ package coalesce
 
 // old(...) below is the state at the moment the mutex was acquired.
 //@ func (*Queue).insert
-//@   props C11 C08 C12
+//@   props C11 C08 C04 C12
 //@   arith wrap
 //@   locks q
 //@   effect insertSteps := insertSteps + 1
@@ -50,7 +50,7 @@ package coalesce
 //@   ensures [inv] QInv(q)
 
 //@ func (*Queue).next
-//@   props C11 C08 C12
+//@   props C11 C08 C04 C12
 //@   locks q
 //@   requires q != nil
 //@   ensures [empty] old(len(q.queue)) == 0 ==> res0 == nil && res1 == 0 && !res2 && len(q.queue) == 0
@@ -72,7 +72,7 @@ package coalesce
 // otherwise the item is pending when Insert returns, and the wake-up send
 // never blocks and never hits a closed channel.
 //@ func (*Queue).Insert
-//@   props C11 C08 C12
+//@   props C11 C08 C04 C12
 //@   requires QStable(q)
 //@   modifies ghost insertSteps
 //@   ensures [refused-after-close] old(closed(q.closed)) ==> !res0 && res1 == errClosedQueue && insertSteps == old(insertSteps)
@@ -95,7 +95,7 @@ package coalesce
 // completed before the close has been delivered); a valid item is returned as
 // soon as next() yields one.
 //@ func (*Queue).Next
-//@   props C11 C12
+//@   props C11 C04 C12
 //@   requires QStable(q) && ctx != nil
 //@   ensures [closed-only-when-empty] res2 == errClosedQueue ==> closed(q.closed) && len(q.queue) == 0
 //@   ensures [valid-item] res2 == nil ==> !has(q.coalesced, res0) && QInv(q)
